@@ -21,19 +21,22 @@ ProxyFor(cfg, sch, host) ==
   ELSE IF sch = "http" THEN cfg.http ELSE IF sch = "https" THEN cfg.https ELSE "-"
 
 (* ---------------- settings read from the environment ------------------- *)
-(* every variable is one of: "unset" | "empty" | "blank" | "garbage" |      *)
-(* "socks" (a URL with another scheme) | <name of a usable http(s) proxy>   *)
-Ignored == {"unset", "empty", "blank", "garbage", "socks"}
-Var(lower, upper) == IF lower # "unset" THEN lower ELSE upper       \* lower-case name wins
-Usable(v) == IF v \in Ignored THEN "-" ELSE v
+(* each proxy variable is one of: "unset" | "empty" | "blank" | "garbage" | *)
+(* "socks" (a URL with another scheme) | "url" | "urls" (usable http /      *)
+(* https proxy URL).  A usable value is identified by the name of the       *)
+(* variable it came from.                                                   *)
+Usable(v) == v \in {"url", "urls"}
+\* lower-case name wins over upper-case: <<value, name of the variable it came from>>
+Pick(lv, ln, uv, un) == IF lv # "unset" THEN <<lv, ln>> ELSE <<uv, un>>
 FromEnv(env) ==
-  LET all   == Usable(Var(env.all_l, env.all_u))
-      http  == Usable(Var(env.http_l, env.http_u))
-      https == Usable(Var(env.https_l, env.https_u))
-      np    == Var(env.no_l, env.no_u)      \* "unset" | "empty" | "star" | "list"
+  LET all   == Pick(env.all_l, "all_l", env.all_u, "all_u")
+      http  == Pick(env.http_l, "http_l", env.http_u, "http_u")
+      https == Pick(env.https_l, "https_l", env.https_u, "https_u")
+      np    == Pick(env.no_l, "no_l", env.no_u, "no_u")[1]      \* "unset" | "empty" | "star" | "list"
+      allName == IF Usable(all[1]) THEN all[2] ELSE "-"
   IN [disabled |-> np = "star",
-      http  |-> IF http # "-" THEN http ELSE all,
-      https |-> IF https # "-" THEN https ELSE all,
+      http  |-> IF Usable(http[1]) THEN http[2] ELSE allName,      \* scheme-specific over ALL_PROXY
+      https |-> IF Usable(https[1]) THEN https[2] ELSE allName,
       noproxy |-> IF np = "list" THEN env.entries ELSE <<>>]
 
 \* meta-properties
